@@ -637,6 +637,53 @@ def rule_step_value(chk, tree, order):
             chk.decide(inst not in badx, 'dt-adapt-override', inst, node=ex, file=INT, func='_get_explicit_dt_adapt', detail_bad=badx.get(inst, ''), detail_ok=text)
 
 
+def rule_damping_consistent(chk):
+    """the start-up damping keeps the factor it applied in self._damping_factor, and _get_undamped_timestep / _get_solver_data divide by that attribute: on every path of
+    _damp_timestep the value returned is dt times the factor the attribute holds when the method returns (a path that returns dt itself while the attribute still holds the
+    factor of an earlier step makes the "undamped" step grow by 1/factor per iteration); nothing else writes the attribute after construction"""
+    from verif_static import paths as PT
+    t = M.py(SOL)
+    scls = M.find_class(t, 'Solver')
+    fn = M.find_func(scls, '_damp_timestep')
+    if fn is None:
+        raise AnalysisError('Solver._damp_timestep vanished')
+    dtp = (M.arg_names(fn) + [None, None])[1]
+    ATT = 'self._damping_factor'
+    bad, n = None, 0
+    for p_ in PT.enumerate_paths(M.docstring_stripped(fn.body)):
+        if p_[-1].kind != 'return' or p_[-1].node.value is None:
+            bad = bad or 'a path returns no step'
+            continue
+        n += 1
+        factor = None          # None: the attribute still holds what it held on entry
+        for e in p_:
+            if e.kind == 'stmt' and isinstance(e.node, (ast.Assign, ast.AugAssign)):
+                tg = e.node.targets[0] if isinstance(e.node, ast.Assign) else e.node.target
+                if compact(tg) == ATT:
+                    factor = PT.resolve(e.node.value, e.env) if isinstance(e.node, ast.Assign) else False
+        if factor is False:
+            bad = bad or 'the factor is updated in place'
+            continue
+
+        class Sub(ast.NodeTransformer):
+            def visit_Attribute(self, a):
+                if compact(a) == ATT and factor is not None:
+                    return N.clone(factor)
+                return self.generic_visit(a)
+        rv = Sub().visit(N.clone(PT.resolve(p_[-1].node.value, p_[-1].env)))
+        ftxt = ATT if factor is None else U(factor)
+        one = factor is not None and isinstance(factor, ast.Constant) and factor.value == 1
+        ok = N.same(rv, '%s*(%s)' % (dtp, ftxt)) or (one and N.same(rv, dtp))
+        if not ok:
+            bad = bad or 'a path returns `%s` while %s %s' % (U(rv)[:60], ATT, 'keeps the value of an earlier call' if factor is None else 'is set to `%s`' % U(factor)[:60])
+    chk.decide(bad is None and n > 0, 'fallback-to-fixed-step', 'damping-factor-applied-is-the-one-kept', node=fn, file=SOL, func='Solver._damp_timestep',
+               detail_bad='%s: _get_undamped_timestep() divides the next step by the kept factor, so the "fixed" step of a run without an applicable criterion drifts' % bad,
+               detail_ok='%d paths: the step returned is dt times the factor kept for _get_undamped_timestep' % n)
+    writers = sorted(set(M.qualname(M.enclosing_func(a)) for a in ast.walk(scls) if isinstance(a, ast.Attribute) and isinstance(a.ctx, ast.Store) and compact(a) == ATT))
+    chk.decide(set(writers) <= set(['Solver.__init__', 'Solver._damp_timestep']) and 'Solver._damp_timestep' in writers, 'fallback-to-fixed-step', 'damping-factor-single-writer', node=fn, file=SOL,
+               func='Solver', detail_bad='%s is written by %s' % (ATT, writers), detail_ok='written by the constructor and _damp_timestep only')
+
+
 def rule_fallback(chk, with_clamp=True):
     """Solver._compute_timestep, per feasible path with path-local names substituted: a non-adaptive run uses the undamped fixed step; an adaptive serial run returns what the
     integrator proposes - called with (undamped step, cfl) - or the undamped step when that is None; in parallel None becomes a large number before the global reduction"""
@@ -772,7 +819,10 @@ def rule_consulted_every_step(chk):
                detail_bad='after the stability criteria were applied a path returns `%s` (tests: %s): only the damped computed step, or `tf - t` when t + dt > tf - epsilon, is allowed '
                           '(any wider window lets the last step exceed the stable step)' % (bad_s or ('', '')),
                detail_ok='dt = tf - t only when t + dt would pass tf - epsilon (%d paths)' % nst)
-    sv = M.find_method(t, 'Solver', 'solve')
+    # helpers extracted from solve() (`_advance_time_and_timestep()`) are written back in place; the methods the rules name stay calls
+    VOCAB_ = ('_get_timestep', '_dump_output_if_needed', '_compute_timestep', '_damp_timestep', '_get_solver_data', '_get_undamped_timestep', '_post_stage_callback')
+    scls_ = M.find_class(t, 'Solver')
+    sv = M.find_func(M.inlined_class(scls_, keep=set(VOCAB_) | set(n_ for n_ in M.methods(scls_) if not n_.startswith('_'))), 'solve')
     nxt = [a for a in ast.walk(sv) if isinstance(a, ast.Assign) and U(a.targets[0]) == 'self.dt' and M.call_name(a.value) == 'self._get_timestep']
     chk.decide(len(nxt) == 2, 'fallback-to-fixed-step', 'solver-asks-before-every-step', node=sv, file=SOL, func='Solver.solve',
                detail_bad='self.dt = self._get_timestep() sites: %d (one before the loop, one per iteration expected)' % len(nxt), detail_ok='before the loop and in every iteration')
@@ -803,6 +853,7 @@ def main(chk):
     chk.floor('model runs of compute_h_minimum', rule_hmin_model(chk, t), 40)
     chk.floor('calls in the dt_adapt history', rule_dt_adapt_model(chk, t), 6)
     rule_fallback(chk)
+    rule_damping_consistent(chk)
     rule_consulted_every_step(chk)
     units = [INT, SOL]
     if chk.tier == 'thorough':
